@@ -696,3 +696,15 @@ debug_wrapper!(misc_wdebug_ctr32be, P4w2, 4, ctr::Ctr32BE<P4w2>, ctr::CtrCore<P4
 debug_wrapper!(misc_wdebug_ofb, P4w2, 4, ofb::Ofb<P4w2>, ofb::OfbCore<P4w2>);
 #[cfg(not(kani))]
 debug_wrapper!(misc_wdebug_belt, P16w2, 16, belt_ctr::BeltCtr<P16w2>, belt_ctr::BeltCtrCore<P16w2>);
+
+// ---------------------------------------------------------------- C13 / C10: seeking with a signed position type
+#[cfg(not(kani))]
+pub fn misc_seekneg_ctr32be() {
+    let c = P4w2 { k: fill() };
+    let iv: [u8; 4] = fill();
+    let mut a = ctr::Ctr32BE::<P4w2>::from_core(ctr::CtrCore::<P4w2, ctr::flavors::Ctr32BE>::inner_iv_init(c, &iv.into()));
+    let p: i32 = nd::any::<u32>() as i32;
+    // try_seek is documented to report positions it cannot reach as an error; it must not panic
+    let r = a.try_seek(p);
+    if p >= 0 { assert!(r.is_ok()); assert!(a.try_current_pos::<i32>().ok() == Some(p)); }
+}
